@@ -106,6 +106,10 @@ EXT_XML = {
                  '</physics_scene></library_physics_scenes>' % NS,
     'force': '<library_force_fields xmlns="%s"><force_field id="ff%%d"><technique profile="Z"><wind strength="3"/>'
              '</technique></force_field></library_force_fields>' % NS,
+    'dupcams': '<library_cameras xmlns="%s"><camera id="dupcam%%d"><optics><technique_common><perspective><yfov>35</yfov>'
+               '<znear>1</znear><zfar>50</zfar></perspective></technique_common></optics></camera></library_cameras>' % NS,
+    'duplights': '<library_lights xmlns="%s"><light id="duplight%%d"><technique_common><ambient><color>1 0.5 0.25</color>'
+                 '</ambient></technique_common></light></library_lights>' % NS,
     'extrafx': '<extra xmlns="%s" id="exf%%d"><technique profile="EXPORTER"><exp:settings xmlns:exp="urn:example:exporter" '
                'exp:mode="fast" plain="1">1<exp:sub/></exp:settings><o:more xmlns:o="http://example.org/ext/1.0"/></technique></extra>' % NS,
     'extra': '<extra xmlns="%s" id="ex%%d" type="t"><technique profile="MAX3D"><frame_rate>30</frame_rate>'
